@@ -289,7 +289,9 @@ def lstrip_rules(ctx: Ctx, rid: str) -> None:
     slices = [n for n in ast.walk(auto) if isinstance(n, ast.Subscript) and isinstance(n.slice, ast.Slice) and ast.unparse(n) == "text[:l_pos]"]
     ctx.check(len(slices) == 1, "auto:slice", "lexer:Lexer.tokeniter", "single truncation", "exactly one truncation text[:l_pos] expected in the automatic lstrip branch", ti.loc(auto))
     if slices:
-        gs = [ast.unparse(g) for g, pol in guards_of(slices[0], stop=auto) if pol]
+        from .normalize import atoms as _atoms
+
+        gs = [a for g, pol in guards_of(slices[0], stop=auto) for a, p in _atoms(g, pol) if p]
         ctx.check("whitespace_re.fullmatch(text, l_pos)" in gs and "l_pos > 0 or line_starting" in gs, "auto:guards", "lexer:Lexer.tokeniter", f"truncation guards {gs}",
                   f"the truncation must be dominated by whitespace_re.fullmatch(text, l_pos) (only whitespace is removed) and by `l_pos > 0 or line_starting` (the tag starts its line); found {gs}", ti.loc(slices[0]))
     s = ast.unparse(auto)
